@@ -64,7 +64,11 @@ struct Rng {
     while (v < hi && !chance(1, stop_den)) v++;
     return v;
   }
-  template <class T> const T &pick(const std::vector<T> &v) { return v[below(v.size())]; }
+  template <class T> const T &pick(const std::vector<T> &v) {
+    static const T none = T();
+    if (v.empty()) return none;  // degenerate pools (a tree that rejects most of the corpus) must not crash the harness
+    return v[below(v.size())];
+  }
   // labelled sub-stream: independent generator derived from this one's seed material
   Rng fork(uint64_t label) const { return Rng(mix64(s[0] ^ rotl(s[2], 13), label)); }
 };
